@@ -432,6 +432,18 @@ func (e *tokEnv) roundTrip(iss *principal, t token.Token, f0 W, ty, tagx string)
 	if pl != nil {
 		plW = WNode(pl)
 	}
+	// "time bounds compared at whole-second resolution": an instant between two seconds may come back as either of them
+	f0r := f0
+	switch v := t.(type) {
+	case *delegation.Token:
+		f0r = dlgFieldsW(v, true)
+	case *invocation.Token:
+		f0r = invFieldsW(v, true)
+	}
+	if string(f0r) != string(f0) {
+		e.c.Emit("tok/rt-"+iss.name+"/"+ty+"-"+tagx, WList(WStr("rt"), WStr(ty), plW, f0, f0r), WList(o1, o2, o3, o4))
+		return sealed
+	}
 	e.c.Emit("tok/rt-"+iss.name+"/"+ty+"-"+tagx, WList(WStr("rt"), WStr(ty), plW, f0), WList(o1, o2, o3, o4))
 	return sealed
 }
@@ -992,7 +1004,13 @@ func genToken(c *Ctx) {
 						if err != nil {
 							return errObs()
 						}
-						return WOk(WInt(int64(len(t.Nonce()))))
+						// what a constructor accepts must come back from its own sealed form
+						back := false
+						if sealed, _, err := t.ToSealed(p.priv); err == nil {
+							_, _, err = delegation.FromSealed(sealed)
+							back = err == nil
+						}
+						return WList(WStr("ok"), WInt(int64(len(t.Nonce()))), WBool(back))
 					}
 					var opts []invocation.Option
 					if s.nonce >= 0 {
@@ -1010,7 +1028,12 @@ func genToken(c *Ctx) {
 					if err != nil {
 						return errObs()
 					}
-					return WOk(WInt(int64(len(t.Nonce()))))
+					back := false
+					if sealed, _, err := t.ToSealed(p.priv); err == nil {
+						_, _, err = invocation.FromSealed(sealed)
+						back = err == nil
+					}
+					return WList(WStr("ok"), WInt(int64(len(t.Nonce()))), WBool(back))
 				})
 				// the second that goes on the wire: invocation.WithExpiration rounds to the nearest second, the
 				// other options keep the instant and the encoder writes its Unix() second
@@ -1023,8 +1046,26 @@ func genToken(c *Ctx) {
 					}
 					return WInt(time.Unix(*p, s.ns).Unix())
 				}
-				c.Emit("tok/new-"+ty, WList(WStr("new"), WStr(ty), WMap(KV{"iss", WBool(s.issDef)}, KV{"other", WBool(s.otherDef)},
-					KV{"cmd", WStr(s.cmd)}, KV{"nonce", WInt(int64(s.nonce))}, KV{"t1", tw(s.t1)}, KV{"t2", tw(s.t2)}, KV{"polmax", WInt(s.polmax)})), obs)
+				kvs := []KV{{"iss", WBool(s.issDef)}, {"other", WBool(s.otherDef)},
+					{"cmd", WStr(s.cmd)}, {"nonce", WInt(int64(s.nonce))}, {"t1", tw(s.t1)}, {"t2", tw(s.t2)}, {"polmax", WInt(s.polmax)}}
+				// the other neighbouring second of an instant between two seconds ("whole-second resolution" does not say which)
+				alt := func(p *int64) (W, bool) {
+					if p == nil || s.ns == 0 {
+						return WNull, false
+					}
+					fl, rd := time.Unix(*p, s.ns).Unix(), time.Unix(*p, s.ns).Round(time.Second).Unix()
+					if WInt(fl) == tw(p) {
+						return WInt(rd), rd != fl
+					}
+					return WInt(fl), rd != fl
+				}
+				if a, ok := alt(s.t1); ok {
+					kvs = append(kvs, KV{"t1r", a})
+				}
+				if a, ok := alt(s.t2); ok {
+					kvs = append(kvs, KV{"t2r", a})
+				}
+				c.Emit("tok/new-"+ty, WList(WStr("new"), WStr(ty), WMap(kvs...)), obs)
 			}
 		}
 	}
